@@ -24,12 +24,12 @@ def resStr : ParseResult → String
 def fieldsStr (f : Fields) : String :=
   s!"{f.year} {f.month} {f.day} {f.hours} {f.minutes} {f.seconds} {f.weekDay}"
 
-/-- everything observable about one instant (ms); `inst` prints it, `scan`/`secs` hash it -/
-def instLine (t : Int) : String :=
-  let f := calcF t
+/-- everything observable about one instant (microseconds); `instu`/`inst` print it, `scan`/`secs` hash it -/
+def instLineU (u : Int) : String :=
+  let f := calcU u
   let mk := constructF f
-  -- `toUTCString k t = fmtFields k (calcF t) (t % 1000).toNat` by definition; the fields are computed once
-  let ms := (t % 1000).toNat
+  -- `toUTCStringU k u = fmtFields k (calcU u) (roundMs u % 1000).toNat` by definition; the fields are computed once
+  let ms := (roundMs u % 1000).toNat
   let l := fmtFields .long f ms
   let s := fmtFields .short f ms
   let d := fmtFields .dateOnly f ms
@@ -40,14 +40,25 @@ def instLine (t : Int) : String :=
 def fnv (h : UInt64) (s : String) : UInt64 :=
   s.toUTF8.foldl (fun h b => (h ^^^ b.toUInt64) * 1099511628211) h
 
-def msOfDay (day : Int) : Int := (day * 7919) % 1000
+def instLine (t : Int) : String := instLineU (t * 1000)
 
-/-- hash over the instants `(day*86400 + sod)*1000 + msOfDay day`, `day = d0 .. d0+n-1` -/
-def scanHash (d0 : Int) (n : Nat) (sod : Int) (st : Int) : UInt64 := Id.run do
+/-- microsecond offset of the scanned instant of a day: mode 0 = the exact second, 1 = a day-dependent whole
+millisecond, 2 = 100..900 µs *before* the second (never the 500 µs tie) -/
+def usOfDay (day : Int) (mode : Nat) : Int :=
+  match mode with
+  | 0 => 0
+  | 1 => (day * 7919) % 1000 * 1000
+  | _ => - ([100, 200, 300, 700, 800, 900].getD ((day * 7919) % 6).toNat 100)
+
+/-- hash over the instants `(day*86400 + sod)*10^6 + usOfDay day mode`, `day = d0, d0+st, ..` (instants that round
+outside years 1..9999 are skipped) -/
+def scanHash (d0 : Int) (n : Nat) (sod : Int) (st : Int) (mode : Nat) : UInt64 := Id.run do
   let mut h : UInt64 := 14695981039346656037
   for i in [0:n] do
     let day := d0 + st * i
-    h := fnv h (instLine ((day * 86400 + sod) * 1000 + msOfDay day))
+    let u := (day * 86400 + sod) * 1000000 + usOfDay day mode
+    if inRange (roundMs u) then
+      h := fnv h (instLineU u)
   return h
 
 /-- hash over the seconds `s0 .. s0+n-1` of `day` -/
@@ -58,6 +69,13 @@ def secsHash (day : Int) (s0 : Int) (n : Nat) : UInt64 := Id.run do
   return h
 
 def dayInRange (d : Int) : Bool := -719162 ≤ d && d ≤ 2932896
+
+def scanOp (oracleOnly : Bool) (a n s st md : String) : String :=
+  match a.toInt?, n.toNat?, s.toInt?, st.toInt?, md.toNat? with
+  | some d0, some n, some sod, some st, some md =>
+    if 1 ≤ st && st ≤ 1000 && -719162 ≤ d0 && d0 + st * ((n : Int) - 1) ≤ 2932896 && n ≤ 100000 && 0 ≤ sod && sod < 86400 && md ≤ 2
+    then (if oracleOnly then "ok" else s!"ok {scanHash d0 n sod st md}") else "range"
+  | _, _, _, _, _ => "bad-op"
 
 def step (_ : Unit) (ts : List String) : Unit × String :=
   let r : String := match ts with
@@ -83,16 +101,19 @@ def step (_ : Unit) (ts : List String) : Unit × String :=
     | ["inst", a] => match a.toInt? with
       | some t => if inRange t then instLine t ++ " or=ok" else "range"
       | none => "bad-op"
-    | ["scan", a, n, s, st] => match a.toInt?, n.toNat?, s.toInt?, st.toInt? with
-      | some d0, some n, some sod, some st =>
-        if 1 ≤ st && st ≤ 1000 && -719162 ≤ d0 && d0 + st * ((n : Int) - 1) ≤ 2932896 && n ≤ 100000 && 0 ≤ sod && sod < 86400
-        then s!"ok {scanHash d0 n sod st}" else "range"
-      | _, _, _, _ => "bad-op"
-    | ["oscan", a, n, s, st] => match a.toInt?, n.toNat?, s.toInt?, st.toInt? with
-      | some d0, some n, some sod, some st =>
-        if 1 ≤ st && st ≤ 1000 && -719162 ≤ d0 && d0 + st * ((n : Int) - 1) ≤ 2932896 && n ≤ 100000 && 0 ≤ sod && sod < 86400
-        then "ok" else "range"
-      | _, _, _, _ => "bad-op"
+    | ["instu", a] => match a.toInt? with
+      | some u => if inRange (roundMs u) then instLineU u ++ " or=ok" else "range"
+      | none => "bad-op"
+    | ["splitu", a] => match a.toInt? with
+      | some u => if inRange (roundMs u) then fieldsStr (calcU u) else "range"
+      | none => "bad-op"
+    | ["fmtu", k, a] => match k.toNat? >>= fmtOf, a.toInt? with
+      | some k, some u => if inRange (roundMs u) then hex (toUTCStringU k u) else "range"
+      | _, _ => "bad-op"
+    | ["scan", a, n, s, st] => scanOp false a n s st "1"
+    | ["scan", a, n, s, st, md] => scanOp false a n s st md
+    | ["oscan", a, n, s, st] => scanOp true a n s st "1"
+    | ["oscan", a, n, s, st, md] => scanOp true a n s st md
     | ["osecs", a, s, n] => match a.toInt?, s.toInt?, n.toNat? with
       | some day, some s0, some n => if dayInRange day && 0 ≤ s0 && s0 + n ≤ 86400 then "ok" else "range"
       | _, _, _ => "bad-op"
